@@ -1585,6 +1585,19 @@ def r_cache(m, rep, R):
                 core_fn = _call_op(m, core_name)
                 cpr = [p.name for p in cxx.params_of(core_fn)]
                 args = r[2]
+                if len(cpr) == 2 and len(args) == 2:
+                    # the shared lookup is handed the key already made:  lookup(callback, key_type(x, y))
+                    kt_ = args[1]
+                    kargs_ = tuple(kt_[2]) if kt_[0] in ('ctor', 'call') and len(kt_) > 2 else (tuple(kt_[1]) if kt_[0] == 'init' else ())
+                    oky_ = len(kargs_) == 2 and kargs_[0] == V(pr[0]) and \
+                        (kargs_[1] == V(pr[1]) if kind == 'binary' and len(pr) > 1 else not [x for x in subterms(kargs_[1]) if x[0] in ('var', 'mem', 'call', 'mcall', 'idx')])
+                    okw = args[0] == V(cbparam) and oky_
+                    rep.check(okw, R, w, 'cache:%s:wrapper' % kind,
+                              '%s lambda forwards the %s callback and the key (its own ids%s) to the shared lookup %s' % (kind, kind, '' if kind == 'binary' else ', UINT_MAX', core_name),
+                              '%s lambda forwards %s to %s' % (kind, [show(a) for a in args], core_name))
+                    if okw:
+                        _r_cache_core(m, rep, R, kind, cbparam, core_fn, core_name, {'cb': cpr[0], 'x': None, 'y': None, 'key_param': cpr[1]})
+                    continue
                 if len(cpr) != 3:
                     raise AnalysisError('%s:%s the shared rule lookup %s takes %d parameters (callback and the two ids expected): not recognised' % (H, core_fn.line, core_name, len(cpr)))
                 okw = len(args) == len(cpr) == 3 and args[0] == V(cbparam) and args[1] == V(pr[0]) and \
@@ -1627,23 +1640,27 @@ def _r_cache_core(m, rep, R, kind, cbparam, core_fn, core_name, bind, cache_term
         bind = {'cb': None, 'x': pr2[0], 'y': pr2[1] if kind == 'binary' and len(pr2) > 1 else None}
     w2 = _w(fn2.line, 'parse_sentence::' + core_name)
     keyv = None
-    for v in fn2.find('VarDecl'):
+    key_param = bind.get('key_param') if isinstance(bind, dict) else None
+    for v in ([] if key_param else fn2.find('VarDecl')):
         if (v.type or '').replace('const ', '').strip() in ('std::pair<unsigned int, unsigned int>', 'pair<unsigned int, unsigned int>') \
                 or (v.dtype or '').replace('const ', '').strip() == 'std::pair<unsigned int, unsigned int>':
             keyv = v
-    if keyv is None:
+    if keyv is None and not key_param:
         rep.violation(R, w2, 'cache:%s:key' % kind, 'cache key pair not found in lambda %s' % core_name)
         return
-    kt = term(env2.init_of(keyv), env2)
-    kargs = kt[2] if kt[0] == 'ctor' else (kt[1] if kt[0] == 'init' else ())
-    if bind['y'] is not None:
-        okk = [canon(a) for a in kargs] == [canon(V(bind['x'])), canon(V(bind['y']))]
+    if key_param:
+        K = V(key_param)        # (how the key is made from the ids is judged where the wrapper makes it)
     else:
-        okk = len(kargs) == 2 and canon(kargs[0]) == canon(V(bind['x'])) and \
-            not [x for x in subterms(kargs[1]) if x[0] in ('var', 'mem', 'call', 'mcall', 'idx')]
-    rep.check(okk, R, w2, 'cache:%s:key' % kind, '%s cache key is built from the argument ids in order' % kind,
-              '%s cache key is (%s)' % (kind, ', '.join(canon(a) for a in kargs)))
-    K = V(keyv.name)
+        kt = term(env2.init_of(keyv), env2)
+        kargs = kt[2] if kt[0] == 'ctor' else (kt[1] if kt[0] == 'init' else ())
+        if bind['y'] is not None:
+            okk = [canon(a) for a in kargs] == [canon(V(bind['x'])), canon(V(bind['y']))]
+        else:
+            okk = len(kargs) == 2 and canon(kargs[0]) == canon(V(bind['x'])) and \
+                not [x for x in subterms(kargs[1]) if x[0] in ('var', 'mem', 'call', 'mcall', 'idx')]
+        rep.check(okk, R, w2, 'cache:%s:key' % kind, '%s cache key is built from the argument ids in order' % kind,
+                  '%s cache key is (%s)' % (kind, ', '.join(canon(a) for a in kargs)))
+        K = V(keyv.name)
     cache = cache_term if cache_term is not None else V(m.p_cache)
     # the iterator-based variant: auto it = cache->find(key)
     itv = None
@@ -1680,9 +1697,12 @@ def _r_cache_core(m, rep, R, kind, cbparam, core_fn, core_name, bind, cache_term
               '%s lookup returns %s' % (kind, [canon(r) if r else None for r in rets]))
     sc = [term(n, env2) for n in fn2.find('CallExpr') if (strip(n.kids[0]).ref or strip(n.kids[0]).name) == (scaffold or m.p_scaffold)]
     want_cb = cb_term if cb_term is not None else (V(bind['cb']) if bind['cb'] else V(cbparam))
-    ok = len(sc) == 1 and len(sc[0][2]) == 4 and sc[0][2][0] == want_cb and sc[0][2][1] == V(bind['x'])
-    if ok and bind['y'] is not None:
-        ok = sc[0][2][2] == V(bind['y'])
+    if key_param:
+        ok = len(sc) == 1 and len(sc[0][2]) == 4 and sc[0][2][0] == want_cb and sc[0][2][1] == M(K, 'first') and sc[0][2][2] == M(K, 'second')
+    else:
+        ok = len(sc) == 1 and len(sc[0][2]) == 4 and sc[0][2][0] == want_cb and sc[0][2][1] == V(bind['x'])
+        if ok and bind['y'] is not None:
+            ok = sc[0][2][2] == V(bind['y'])
     rep.check(ok, R, w2, 'cache:%s:callback' % kind, '%s lookup asks the %s callback with the same ids' % (kind, kind),
               '%s lookup calls scaffold as %s' % (kind, [show(x) for x in sc]))
     # what the callback filled in is what is stored: the result vector is touched by nothing between the callback
